@@ -267,11 +267,14 @@ class GeneralCalibrationIndexKernel(IGeneralCalibrationIndexKernel):
 
         all_indices: List[int] = list(range(self.start_index, self.stop_index + 1))
         cycle_length: int = self.cycle_length
+        # Each state takes (heralded, calibration) acquisition pair, or only calibration acquisition without heralding
+        state_length: int = 2 if self.heralded_initialization else 1
+        state_offset: int = state_length - 1
         if state == StateKey.STATE_0:
-            return all_indices[1::cycle_length]
+            return all_indices[0 * state_length + state_offset::cycle_length]
         if state == StateKey.STATE_1:
-            return all_indices[3::cycle_length]
+            return all_indices[1 * state_length + state_offset::cycle_length]
         if state == StateKey.STATE_2:
-            return all_indices[5::cycle_length]
+            return all_indices[2 * state_length + state_offset::cycle_length]
         return []
     # endregion
